@@ -124,3 +124,91 @@ end GV.Gen
 
 
 FILES = {"Schedules.lean": emit_schedules}
+
+
+# ---------------------------------------------------------------------------------
+# dependency graphs of the default targets (C08)
+# ---------------------------------------------------------------------------------
+
+
+def default_graphs():
+    """Distinct dependency graphs of the default targets for the days from 2015-01-01 on.
+
+    The graph is built by the real `load_and_check_functions` + `dags.create_dag` with the
+    documented input variables as data columns; it can only change where the function table
+    changes, i.e. at validity bounds of time-dependent rules."""
+    import inspect
+    import networkx as nx
+    import popgen
+    from _gettsim.config import TYPES_INPUT_VARIABLES
+
+    start = datetime.date(2015, 1, 1).toordinal()
+    last = max(extract.all_entry_dates())
+    bounds = {start}
+    for e in extract.registry():
+        if e["td"]:
+            for b in (e["start"], e["stop"] + 1):
+                if start <= b <= last:
+                    bounds.add(b)
+    graphs = {}
+    for o in sorted(bounds):
+        date = datetime.date.fromordinal(o).isoformat()
+        try:
+            dag, fno = popgen.graph(date)
+        except Exception as ex:  # noqa: BLE001
+            graphs.setdefault(("error", f"{type(ex).__name__}: {str(ex)[:200]}"), []).append(date)
+            continue
+        names = sorted(dag.nodes)
+        idx = {n: i for i, n in enumerate(names)}
+        deps = tuple(tuple(sorted(idx[p] for p in dag.predecessors(n))) for n in names)
+        try:
+            order = tuple(idx[n] for n in nx.topological_sort(dag))
+        except nx.NetworkXUnfeasible:
+            order = tuple(range(len(names)))
+        allowed = []
+        for n in names:
+            f = fno.get(n)
+            param_only = f is not None and all(a.endswith("_params") for a in inspect.signature(f).parameters)
+            if n in TYPES_INPUT_VARIABLES or n.endswith("_params") or param_only:
+                allowed.append(idx[n])
+        key = (tuple(names), deps)
+        if key not in graphs:
+            graphs[key] = {"names": names, "deps": deps, "order": order, "allowed": tuple(allowed), "dates": []}
+        graphs[key]["dates"].append(date)
+    return graphs
+
+
+def emit_graphs() -> str:
+    gs = default_graphs()
+    parts, names_index = [], []
+    k = 0
+    errors = []
+    for key, g in gs.items():
+        if key[0] == "error":
+            errors.append((key[1], g))
+            continue
+        parts.append(
+            f"/-- default-target graph in force on {', '.join(g['dates'][:6])}{' …' if len(g['dates']) > 6 else ''} "
+            f"({len(g['names'])} nodes) -/\n"
+            f"def graph_{k} : GV.Graph.G := {{ n := {len(g['names'])}, deps := [" +
+            ", ".join("[" + ", ".join(map(str, d)) + "]" for d in g["deps"]) + "] }\n"
+            f"def order_{k} : List Nat := [{', '.join(map(str, g['order']))}]\n"
+            f"def allowed_{k} : List Nat := [{', '.join(map(str, g['allowed']))}]\n"
+            f"def dates_{k} : List String := [{', '.join(lstr(d) for d in g['dates'])}]\n")
+        names_index.append(k)
+        k += 1
+    body = "\n".join(parts)
+    return HEADER + f"""import GettsimVerif.Core.Graph
+namespace GV.Gen.Graphs
+/-- number of distinct graphs from 2015-01-01 on -/
+def count : Nat := {k}
+/-- dates at which the real graph could not be built (must be empty) -/
+def buildErrors : List String := [{', '.join(lstr(e[0] + ' @ ' + ','.join(e[1])) for e in errors)}]
+
+{body}
+def all : List (GV.Graph.G × List Nat × List Nat) := [{', '.join(f'(graph_{i}, order_{i}, allowed_{i})' for i in names_index)}]
+end GV.Gen.Graphs
+"""
+
+
+FILES["Graphs.lean"] = emit_graphs
